@@ -157,14 +157,18 @@ func c18Main(args []string) int {
 	var jobs []sched.Job
 	for _, n := range names {
 		for s := 0; s < shards; s++ {
-			jobs = append(jobs, sched.Job{Scenario: n, Preempt: pre, Data: 0, Sched: sd, ShardI: s, ShardN: shards, BudgetS: budget})
+			d := sd
+			if strings.HasPrefix(n, "S6") && common.Tier() != "thorough" {
+				d = 1 // five clients: one schedule deviation in the quick tier
+			}
+			jobs = append(jobs, sched.Job{Scenario: n, Preempt: pre, Data: 0, Sched: d, ShardI: s, ShardN: shards, BudgetS: budget})
 		}
 	}
 	totalBudget := 60.0
 	if common.Tier() == "thorough" {
 		totalBudget = 1200
 	}
-	sched.SpreadBudget(jobs, totalBudget, *procs, 15)
+	sched.SpreadBudget(jobs, totalBudget, *procs, 35)
 	tot := sched.RunAll(rep, jobs, []string{"C18", "worker"}, *procs)
 	rep.Set("states", len(tot.Outcomes))
 	rep.Set("transitions", int(tot.Steps))
